@@ -414,10 +414,11 @@ func c01GenConf(rng *rand.Rand, rs []*c01Rule, svcIDs []string) *vkConf {
 	if rng.Intn(2) == 0 {
 		c.Services = []string{svcIDs[rng.Intn(len(svcIDs))]}
 		c.ServicesPauseAlways = rng.Intn(4) == 0
+		c.ServicesFarZone = rng.Intn(3) == 0
 	}
 	c.Clients = []vkClient{
 		{Name: "kid", IP: "127.0.0.2", UseOwnSettings: true, FilteringEnabled: rng.Intn(2) == 0},
-		{Name: "tv", IP: "127.0.0.3", UseOwnServices: true, ServicesPauseAlways: rng.Intn(3) == 0},
+		{Name: "tv", IP: "127.0.0.3", UseOwnServices: true, ServicesPauseAlways: rng.Intn(3) == 0, ServicesFarZone: rng.Intn(3) == 0},
 		{Name: "pc", IP: "127.0.0.4", UseOwnSettings: true, FilteringEnabled: true},
 	}
 	if rng.Intn(3) != 0 {
@@ -575,6 +576,9 @@ func c01RunSet(rep *verifkit.Report, rng *rand.Rand, idx, confsPerSet, queriesPe
 
 	for ci := 0; ci < confsPerSet; ci++ {
 		conf := c01GenConf(rng, rs, svcIDs)
+		if _, farOK := vkWeeklyFar(true); farOK && (conf.ServicesFarZone && len(conf.Services) > 0 || conf.Clients[1].ServicesFarZone && len(conf.Clients[1].Services) > 0) {
+			rep.Class("conf:services-schedule-written-in-a-zone-with-another-weekday")
+		}
 		env := &c01Env{conf: conf, rules: rs, svcRules: svcRules}
 		vs, err := vkStart(conf)
 		if err != nil {
